@@ -245,6 +245,31 @@ func verifOp(c *DiskCache, dir string, op map[string]any) map[string]any {
 			return verifRes(err)
 		}
 		return map[string]any{"kind": "digest", "d": fmt.Sprintf("%x", d.sum[:])}
+	case "chunked":
+		// DiskCache.Chunked + Chunker.Put per chunk (+ Commit): the other writer of blob files (chunked.go)
+		d := verifDigest(op["d"])
+		size := int64(op["size"].(float64))
+		ch, err := c.Chunked(d, size)
+		if err != nil {
+			return verifRes(err)
+		}
+		defer ch.Close()
+		var perrs []string
+		cl, _ := op["chunks"].([]any)
+		for _, x := range cl {
+			m, _ := x.(map[string]any)
+			start := int64(m["start"].(float64))
+			ln := int64(m["len"].(float64))
+			err := ch.Put(Chunk{Start: start, End: start + ln - 1}, verifDigest(m["d"]), &verifReader{rds: verifReads(m["src"])})
+			perrs = append(perrs, verifErrClass(err))
+		}
+		res := map[string]any{"kind": "ok", "puts": perrs}
+		if cm, _ := op["commit"].(bool); cm {
+			if err := ch.Commit(); err != nil {
+				res = map[string]any{"kind": "err", "err": "commit", "msg": err.Error(), "puts": perrs}
+			}
+		}
+		return res
 	case "raw":
 		p, _ := op["path"].(string)
 		data, _ := hex.DecodeString(op["data"].(string))
